@@ -539,6 +539,35 @@ func witnessRemap(kind string, nlong int) scen {
 	return sc
 }
 
+// shrink-race: the file size is state that extend may only grow.  P0 fills page 1 and starts
+// page 2; P2 (opened after that) needs a third page for a long record: it extends the file and is
+// parked before its limit CAS; P1, still on its one-page mapping, records a small counter that
+// fits page 2: its extend must not set the file back to two pages.
+func shrinkRace() scen {
+	sc := scen{kind: "shrink-race", meta: metaOfLen(60), pl: base.clone(), swCas: 0, stay: 100}
+	long := func(k int) int { return sc.pl.add(findName("SR"+strconv.Itoa(k)+"-", 4080, -1, nil)) }
+	sc.progs = [][]op{
+		{{isNew: true, name: long(0)}, {isNew: true, name: long(1)}, {isNew: true, name: long(2)}, {isNew: true, name: long(3)}},
+		{{isNew: true, name: idShort1}, {k: 2}},
+		{{isNew: true, name: long(4)}, {isNew: true, name: long(5)}, {isNew: true, name: long(6)}, {k: 1}},
+	}
+	sc.late = []bool{false, false, true}
+	sc.kills = []int{-1, -1, -1}
+	sc.driver = func(v view, pending func(i int) (string, uint32, bool), runnable func(i int) bool) int {
+		switch {
+		case runnable(0):
+			return 0
+		case runnable(2) && v.size < 3*pageSize:
+			return 2 // until it has extended the file to three pages
+		case runnable(1):
+			return 1
+		default:
+			return 2
+		}
+	}
+	return sc
+}
+
 // damaged-start scenarios (outside the model: the initial file is NOT well
 // formed).  Only the oracles hang / panic / "a damaged file is not made
 // worse" are evaluated; they exercise the guards of newCounter that the
@@ -745,6 +774,7 @@ func runScen(sc scen) {
 	emit := func(f ...string) { events = append(events, f...); nevents++ }
 
 	curLimit := uint32(0)
+	curSize, maxSize := uint32(0), uint32(0)
 	observe := func() view {
 		d, err := os.ReadFile(path)
 		if err != nil {
@@ -752,6 +782,7 @@ func runScen(sc scen) {
 		}
 		v := decode(d, H, sc.pl)
 		curLimit = v.limit
+		curSize = v.size
 		return v
 	}
 	lastObs := ""
@@ -837,6 +868,7 @@ func runScen(sc scen) {
 	}
 	budget := 6000
 	hang := false
+	shrunk := false
 	panicked := ""
 	last := -1
 	fixedPos := 0
@@ -967,12 +999,21 @@ func runScen(sc scen) {
 		if debug {
 			fmt.Fprintf(os.Stderr, "  t%d %s@%#x -> next %s done=%v results=%v\n", i, pre.Label, off, info.Label, info.Done, st.results)
 		}
+		if curSize < maxSize {
+			// the file has become SHORTER: stop here (an access through a mapping of the former
+			// length would fault); the runner reports the decrease
+			shrunk = true
+			break
+		}
+		maxSize = curSize
 		if panicked != "" {
 			break
 		}
 	}
 	status := "ok"
-	if hang {
+	if shrunk {
+		status = "shrunk"
+	} else if hang {
 		status = "hang"
 	} else if panicked != "" {
 		status = "panic"
@@ -1057,6 +1098,7 @@ func main() {
 	runScen(witness4())
 	runScen(witnessTries())
 	runScen(remapTwice())
+	runScen(shrinkRace())
 	runScen(emptyScen())
 	runScen(dmgLimitScen())
 	runScen(dmgCycleScen())
@@ -1080,7 +1122,7 @@ func main() {
 		}
 		runScen(exhScen(exh.plans[(k*stride+off)%len(exh.plans)]))
 	}
-	for i := 7 + nexh; i < n; i++ {
+	for i := 8 + nexh; i < n; i++ {
 		runScen(randomScen())
 	}
 	out.Close()
